@@ -174,6 +174,6 @@ def run(tier, seed):
 MANIFEST = {
     "engine": "G",
     "technique": "exhaustive fault enumeration on the real downloader: every single-byte flip, truncation length, field edge value, substitution and damaged subset of stored shares, plus every placement of altered read answers within a bound",
-    "text": "Each damaged layout is materialised as real share files on real storage servers and read through the real ImmutableFileNode; delivered bytes must always be a prefix of the plaintext, the outcome the exact plaintext or an error, and reads with k untouched shares must succeed.",
+    "text": "Each damaged layout is materialised as real share files on real storage servers and read through the real ImmutableFileNode; delivered bytes must always be a prefix of the plaintext, the outcome the exact plaintext or an error, and reads with k untouched shares must succeed. Also: undamaged shares read by a fresh node whose guess of the segment size is too small, and shares that are self-consistent but whose ciphertext disagrees with the UEB's ciphertext hash tree (bad segments x read ranges).",
     "note": "Catalogue is closed and fully enumerated; hash collisions assumed impossible; default schedule except for lying servers (fault bound in evidence).",
 }
